@@ -57,6 +57,56 @@ def mp_log(q):
     return V.log_frac(V.F(q))
 
 
+DEFAULT_JITTER_DOUBLE = 1e-6     # documented default of `settings.variational_cholesky_jitter` for float64
+
+
+def jitter_setting(value):
+    """`with gpytorch.settings.variational_cholesky_jitter(...)` for every dtype (no-op context when value is None)."""
+    import contextlib
+    import gpytorch
+    if value is None:
+        return contextlib.nullcontext()
+    return gpytorch.settings.variational_cholesky_jitter(float_value=value, double_value=value, half_value=value)
+
+
+def prescribed_jitter(cfg):
+    """The jitter the *configuration* prescribes for a float64 evaluation — never read from the strategy object:
+    an explicit `jitter_val` (constructor argument or property assignment) wins; otherwise the
+    `variational_cholesky_jitter` setting in force AT USE TIME (documented default 1e-6 for float64), whatever dtype
+    or setting the object was constructed under."""
+    if cfg.get("jitter_mode") in ("ctor", "assigned"):
+        return V.F(cfg["jitter"])
+    if cfg.get("jitter_ctx_use") is not None:
+        return V.F(cfg["jitter_ctx_use"])
+    return V.F(DEFAULT_JITTER_DOUBLE)
+
+
+ENV_KEYS = ("learn_z", "jitter_mode", "jitter", "build_dtype", "jitter_ctx_build", "jitter_ctx_use", "noise_n", "noise_call")
+
+
+def env_tag(cfg):
+    t = " ".join(f"{k}={cfg[k]}" for k in ENV_KEYS if cfg.get(k) is not None)
+    return f" [{t}]" if t else ""
+
+
+def make_strategy(cfg, strat_cls, gp, Z, dist):
+    """The strategy with the configuration's constructor flags (defaults when the keys are absent)."""
+    skw = {"jitter_val": cfg["jitter"]} if cfg.get("jitter_mode") == "ctor" else {}
+    Zc = Z.float() if cfg.get("build_dtype") == "float32" else Z      # built in float32, converted by .double() later
+    return strat_cls(gp, Zc, dist, learn_inducing_locations=(cfg.get("learn_z", True) is not False), **skw)
+
+
+def finish_model(cfg, make):
+    """`make().double()` under the construction-time jitter setting, then the post-construction changes."""
+    with jitter_setting(cfg.get("jitter_ctx_build")):
+        model = make().double()
+    if cfg.get("learn_z") == "frozen":
+        model.variational_strategy.inducing_points.requires_grad_(False)
+    if cfg.get("jitter_mode") == "assigned":
+        model.variational_strategy.jitter_val = cfg["jitter"]
+    return model
+
+
 def build(cfg, rng, natural=False):
     """A variational GP + Gaussian likelihood (+ priors, added losses) with random data and parameters."""
     import torch
@@ -74,7 +124,8 @@ def build(cfg, rng, natural=False):
 
     class GP(gpytorch.models.ApproximateGP):
         def __init__(self):
-            vs = strat_cls(self, Z, dist, learn_inducing_locations=True)
+            # non-default constructor flags / construction environment (all default when the keys are absent)
+            vs = make_strategy(cfg, strat_cls, self, Z, dist)
             super().__init__(vs)
             self.mean_module = gpytorch.means.ConstantMean(batch_shape=kb)
             base = (gpytorch.kernels.RBFKernel if cfg.get("kernel", "rbf") == "rbf" else
@@ -88,7 +139,7 @@ def build(cfg, rng, natural=False):
         def forward(self, x):
             return gpytorch.distributions.MultivariateNormal(self.mean_module(x), self.covar_module(x))
 
-    model = GP().double()
+    model = finish_model(cfg, GP)
     lk = cfg.get("lik", "gaussian")
     if lk == "gaussian":
         lik = gpytorch.likelihoods.GaussianLikelihood(
@@ -96,7 +147,8 @@ def build(cfg, rng, natural=False):
     else:
         # heteroskedastic: fixed per-point noise of the *training set* (size n when the stored noise is used, n + 3 when
         # the minibatch noise is supplied at call time), optionally plus a learned homoskedastic part
-        ntrain = n + 3 if cfg.get("noise_kw") else n
+        # or n again with call-time noise (`noise_n="equal"`: minibatch size == number of stored noise values)
+        ntrain = n + 3 if (cfg.get("noise_kw") and cfg.get("noise_n") != "equal") else n
         lik = gpytorch.likelihoods.FixedNoiseGaussianLikelihood(
             noise=torch.tensor([rng.uniform(0.05, 0.6) for _ in range(ntrain)], dtype=torch.float64),
             learn_additional_noise=(lk == "fixed+extra")).double()
@@ -153,8 +205,9 @@ def prior_logprobs(mll, idx):
     return out
 
 
-def exact_qf(ctx, d14, model, dist, x, idx, desc):
-    """Exact training-mode q(f) mean / variances and KL for batch element idx (through the C14 model)."""
+def exact_qf(ctx, d14, model, dist, x, idx, desc, eps=None):
+    """Exact training-mode q(f) mean / variances and KL for batch element idx (through the C14 model), from the
+    parameters the model holds NOW; `eps` = the jitter the configuration prescribes (`prescribed_jitter`)."""
     vs = model.variational_strategy
     M = vs.inducing_points.shape[-2]
     xx, Zx = V.expand_inputs(x, vs.inducing_points.detach())
@@ -162,7 +215,7 @@ def exact_qf(ctx, d14, model, dist, x, idx, desc):
     kzz, kzx, kxx = (V.fmat(V.bget(t, idx, 2)) for t in (Kzz, Kzx, Kxx))
     kzz = V.sym_lower(kzz)
     mx, mz = V.fcol(V.bget(mX, idx, 1)), V.fcol(V.bget(mZ, idx, 1))
-    eps = V.F(vs.jitter_val)
+    eps = V.F(vs.jitter_val) if eps is None else eps
     kappa = V.kappa_of(kzz, eps)
     m, S, R, hasS = V.exact_dist(d14, dist, idx)
     if type(vs).__name__ == "VariationalStrategy":
@@ -212,6 +265,19 @@ def objective_configs(ctx):
             out.append({"strategy": strat, "objective": obj, "beta": 0.0, "priors": obj == "pll", "added": 0,
                         "dist": dists[0], "M": rng.randint(2, 4), "n": n, "d": 1, "N": 3 * n, "pb": [], "kernel": "rbf",
                         "combine": strat.startswith("V")})
+    # shape coincidence: minibatch size == number of stored FixedNoise values, call-time noise differs from the stored one
+    # (another data set of the same size / the full batch in permuted order): the call-time noise counts
+    j = 0
+    for strat in ("VariationalStrategy", "UnwhitenedVariationalStrategy"):
+        for obj in ("elbo", "pll"):
+            for call in (("fresh", "shuffled") if not q else (("fresh", "shuffled")[j % 2],)):
+                n = rng.randint(3, 5 if q else 8)
+                out.append({"strategy": strat, "objective": obj, "beta": rng.choice([1.0, 0.3]), "priors": False, "added": 0,
+                            "dist": dists[j % len(dists)], "M": rng.randint(2, 4), "n": n, "d": rng.choice([1, 2]),
+                            "N": rng.choice([n, 3 * n]), "pb": [], "kernel": "rbf", "combine": j % 3 != 2,
+                            "lik": ["fixed", "fixed+extra"][(j // 2) % 2], "noise_kw": True, "noise_n": "equal",
+                            "noise_call": call})
+                j += 1
     return out
 
 
@@ -229,6 +295,24 @@ def py_spec(kind, ys, mus, vs, ss, B, kl, N, beta, lps, losses):
     pieces = (tot / B, V.mpf(V.F(beta)) / N * V.mpf(V.F(kl)), sum(lps, mp.mpf(0)) / N,
               sum((V.mpf(V.F(a)) for a in losses), mp.mpf(0)))
     return pieces[0] - pieces[1] + pieces[2] - pieces[3], pieces
+
+
+def call_noise(cfg, lik, n, rng):
+    """Per-point noise of the evaluated minibatch for a FixedNoise likelihood and the `noise=` keyword (if any).
+    `noise_call`: "fresh" (default) — other values than the stored ones; "shuffled" — the stored values in another
+    order (full batch in permuted order; needs `noise_n="equal"`)."""
+    import torch
+    if not cfg.get("noise_kw"):
+        return lik.noise_covar.noise.detach().clone(), {}
+    if cfg.get("noise_call") == "shuffled":
+        stored = lik.noise_covar.noise.detach().clone()
+        perm = list(range(n))
+        while perm == list(range(n)):
+            rng.shuffle(perm)
+        noise_b = stored[torch.tensor(perm)].clone()
+    else:
+        noise_b = torch.tensor([rng.uniform(0.05, 0.6) for _ in range(n)], dtype=torch.float64)
+    return noise_b, {"noise": noise_b}
 
 
 def run_objective(ctx, d14, d15, cfg, rng, replay_only=None):
@@ -249,15 +333,25 @@ def run_objective(ctx, d14, d15, cfg, rng, replay_only=None):
     kw = {}
     noise_b = None
     if lk != "gaussian":
-        if cfg.get("noise_kw"):
-            noise_b = torch.tensor([rng.uniform(0.05, 0.6) for _ in range(n)], dtype=torch.float64)
-            kw = {"noise": noise_b}
-        else:
-            noise_b = lik.noise_covar.noise.detach().clone()
+        noise_b, kw = call_noise(cfg, lik, n, rng)
     model.train()
     lik.train()
     with torch.no_grad():
         out = mll(model(x), y, **kw)
+    judge_objective(ctx, d14, d15, cfg, cls.__name__, model, lik, dist, x, y, out, noise_b, added_vals, mll,
+                    {"cfg": cfg, "runner": "objective"}, replay_only=replay_only, extra_desc=env_tag(cfg))
+
+
+def judge_objective(ctx, d14, d15, cfg, cls_name, model, lik, dist, x, y, out, noise_b, added_vals, mll, replay_base,
+                    replay_only=None, extra_desc="", key_tag=""):
+    """Compare what the objective returned (`out`: value, or the tuple of separately returned terms) with its definition
+    evaluated exactly from the parameters the objects hold NOW (q(f), KL through the C14 model with the jitter the
+    configuration prescribes; logs by mpmath; assembly by the generated `forward`), one case per batch element."""
+    N, beta = cfg["N"], cfg["beta"]
+    combine = cfg.get("combine", True)
+    n = x.shape[-2]
+    lk = cfg.get("lik", "gaussian")
+    eps = prescribed_jitter(cfg)
     parts = None
     if combine:
         val = out.detach().clone()
@@ -265,8 +359,8 @@ def run_objective(ctx, d14, d15, cfg, rng, replay_only=None):
         parts = [t.detach().clone() for t in out]
         val = parts[0] - parts[1] + parts[2] - (parts[3] if len(parts) > 3 else 0.0)
         if (len(parts) > 3) != bool(added_vals):
-            ctx.fail(f"{cls.__name__}:{cfg['strategy']}/uncombined.arity", f"{cfg}: {len(parts)} separately returned terms",
-                     {"cfg": cfg, "idx": None, "runner": "objective"})
+            ctx.fail(f"{cls_name}:{cfg['strategy']}/uncombined.arity", f"{cfg}: {len(parts)} separately returned terms",
+                     dict(replay_base, idx=None))
     mp = V._mp()
     for idx in itertools.product(*[range(k) for k in val.shape]):
         if replay_only is not None and list(idx) != list(replay_only):
@@ -279,8 +373,8 @@ def run_objective(ctx, d14, d15, cfg, rng, replay_only=None):
         lps = prior_logprobs(mll, idx)
         desc = f"{cfg['objective']} {cfg['strategy']}/{cfg['dist']} lik={lk} noise_kw={bool(cfg.get('noise_kw'))} beta={beta} " \
                f"N={N} B={n} priors={cfg['priors']} added={cfg['added']} combine_terms={combine} reassign={bool(cfg.get('reassign'))} " \
-               f"pb={cfg['pb']} kb={cfg.get('kb', [])} M={cfg['M']} d={cfg['d']} idx={list(idx)}"
-        ex = exact_qf(ctx, d14, model, dist, x, idx, desc)
+               f"pb={cfg['pb']} kb={cfg.get('kb', [])} M={cfg['M']} d={cfg['d']}{extra_desc} idx={list(idx)}"
+        ex = exact_qf(ctx, d14, model, dist, x, idx, desc, eps=eps)
         if ex["kappa"] > V.COND_MAX:
             ctx.count("discarded_ill_conditioned")
             continue
@@ -306,8 +400,8 @@ def run_objective(ctx, d14, d15, cfg, rng, replay_only=None):
                     ctx.broke("correspondence", f"model-term-vs-spec:{nm}", f"{desc}: generated {float(g)} vs definition {float(pz)}")
         else:
             spec = lfrac(spec_py)
-        cmp_ = V.Cmp(ctx, f"{cls.__name__}:{cfg['strategy']}", desc,
-                     {"cfg": cfg, "idx": list(idx), "runner": "objective"}, ex["kappa"], cfg["M"] + n)
+        cmp_ = V.Cmp(ctx, f"{cls_name}:{cfg['strategy']}{key_tag}", desc,
+                     dict(replay_base, idx=list(idx)), ex["kappa"], cfg["M"] + n)
         scale = max(1.0, abs(float(spec)), abs(ex["kl"]) * beta / N)
         cmp_.scalar("value", float(V.bget(val, idx, 0)), spec, scale=scale)
         if parts is not None:
@@ -317,10 +411,153 @@ def run_objective(ctx, d14, d15, cfg, rng, replay_only=None):
         ctx.case(desc + f" seed={C.seed()}", sample={"case": desc, "value": float(spec), "rel_err": cmp_.worst})
         ctx.count(f"objective:{cfg['objective']}")
         ctx.count(f"strategy:{cfg['strategy']}")
-        ctx.count(f"lik:{lk}{'+kw' if cfg.get('noise_kw') else ''}")
+        ctx.count(f"lik:{lk}{'+kw' if cfg.get('noise_kw') else ''}{'+B=Nstored' if cfg.get('noise_n') == 'equal' else ''}")
         if not combine:
             ctx.count("combine_terms=False")
         _state["worst"] = max(_state.get("worst", 0.0), cmp_.worst)
+
+
+# ------------------------------------------------------------------ part D: configurations x histories on ONE object
+#
+# Classes the first three parts never reached (round-3 seeded misses C15-7/8/9):
+#   * non-default constructor flags of the strategy: `learn_inducing_locations=False`, a parameter frozen afterwards
+#     (`requires_grad_(False)`), an explicit `jitter_val` (constructor argument / property assignment);
+#   * objects built under one environment and evaluated under another: inducing points given in float32 and the model
+#     converted by `.double()`; built under one `variational_cholesky_jitter` setting, evaluated under another;
+#   * the objective evaluated SEVERAL times on one object in training mode with a change in between (hyper-parameters
+#     assigned / moved by an optimiser step / loaded from a checkpoint; only q(u) and the noise; another minibatch);
+#   * minibatch size equal to the number of stored FixedNoise values with a call-time `noise=` that differs from them.
+# Every evaluation is judged against the closed form of the parameters held AT THAT MOMENT with the prescribed jitter.
+
+LEARN_Z = [False, "frozen", True]
+HISTORIES = ["assign", "step", "load", "assign-twice", "q-only"]
+JITTER_MODES = [
+    {},                                                                   # all defaults
+    {"jitter_mode": "ctor", "jitter": 1e-3},                              # explicit constructor argument
+    {"build_dtype": "float32"},                                           # float32 inducing points, then .double()
+    {"jitter_ctx_use": 1e-3},                                             # setting entered at use time only
+    {"jitter_ctx_build": 5e-4},                                           # setting in force at construction only
+    {"jitter_ctx_build": 1e-4, "jitter_ctx_use": 2e-3},                   # built under one value, used under another
+    {"jitter_mode": "assigned", "jitter": 2.5e-4, "build_dtype": "float32"},   # property assigned after construction
+]
+LIK_MODES = [
+    {"lik": "gaussian"},
+    {"lik": "fixed", "noise_kw": True, "noise_n": "equal", "noise_call": "fresh"},
+    {"lik": "gaussian"},
+    {"lik": "fixed+extra", "noise_kw": True, "noise_n": "equal", "noise_call": "shuffled"},
+    {"lik": "gaussian"},
+    {"lik": "fixed", "noise_kw": True},
+    {"lik": "gaussian"},
+    {"lik": "fixed+extra", "noise_kw": False},
+    {"lik": "gaussian"},
+    {"lik": "fixed", "noise_kw": True, "noise_n": "equal", "noise_call": "shuffled"},
+    {"lik": "gaussian"},
+]
+
+
+def variant_configs(ctx):
+    """Periods 2 (strategy), 3 (learn_z), 5 (history), 7 (jitter / dtype / setting environment), 11 (likelihood) are
+    pairwise coprime: 30 consecutive configurations contain every (strategy, learn_z, history) triple and every pair
+    with a jitter mode; the objective alternates with period 4."""
+    rng = ctx.rng("variant-configs")
+    dists = ["CholeskyVariationalDistribution", "MeanFieldVariationalDistribution", "NaturalVariationalDistribution",
+             "DeltaVariationalDistribution", "TrilNaturalVariationalDistribution"]
+    out = []
+    for k in range(30 if ctx.quick else 210):
+        n = rng.randint(2, 5 if ctx.quick else 7)
+        cfg = {"strategy": ["VariationalStrategy", "UnwhitenedVariationalStrategy"][k % 2],
+               "objective": ["elbo", "pll"][(k // 2) % 2], "learn_z": LEARN_Z[k % 3], "history": HISTORIES[k % 5],
+               "dist": dists[(k // 2) % 5 if k % 4 else 0], "beta": rng.choice([1.0, 0.3, 2.5]), "priors": k % 6 == 5,
+               "added": 0, "M": rng.randint(2, 5 if ctx.quick else 7), "n": n, "d": rng.choice([1, 2]),
+               "N": rng.choice([n, 3 * n, 17, 1000]), "pb": rng.choice([[], [], [], [2]]),
+               "kernel": rng.choice(["rbf", "matern"]), "combine": k % 8 != 3}
+        cfg.update(JITTER_MODES[k % 7])
+        cfg.update(LIK_MODES[k % 11])
+        out.append(cfg)
+    return out
+
+
+def change_hypers(model, lik, rng):
+    """New kernel / mean hyper-parameters by assignment (the documented setters)."""
+    import torch
+    with torch.no_grad():
+        k = model.covar_module
+        k.base_kernel.lengthscale = torch.empty_like(k.base_kernel.lengthscale).uniform_(0.6, 1.8)
+        k.outputscale = torch.empty_like(k.outputscale).uniform_(0.4, 2.2)
+        for p in model.mean_module.parameters():
+            p.uniform_(-1.0, 1.0)
+
+
+def run_variant(ctx, d14, d15, cfg, rng, replay_only=None):
+    """One model / likelihood / objective object; a sequence of training-mode evaluations with a change between them."""
+    import torch
+    import gpytorch
+    model, lik, dist, x, y, added_vals = build(cfg, rng)
+    N, beta = cfg["N"], cfg["beta"]
+    n, d = cfg["n"], cfg["d"]
+    cls = gpytorch.mlls.VariationalELBO if cfg["objective"] == "elbo" else gpytorch.mlls.PredictiveLogLikelihood
+    mll = cls(lik, model, num_data=N, beta=beta, combine_terms=cfg.get("combine", True))
+    lk = cfg.get("lik", "gaussian")
+    hist = cfg["history"]
+    model.train()
+    lik.train()
+    opt = None
+    if hist == "step":
+        params = [p for _, p in model.named_hyperparameters() if p.requires_grad] + list(lik.parameters())
+        opt = torch.optim.Adam(params, lr=0.15)
+    steps = {"assign": ["assign"], "step": ["step"], "load": ["load"], "assign-twice": ["assign+minibatch", "assign"],
+             "q-only": ["q-only"]}[hist]
+
+    def evaluate(j, xb, yb, done):
+        noise_b, kw = (None, {})
+        if lk != "gaussian":
+            noise_b, kw = call_noise(cfg, lik, xb.shape[-2], rng)
+        with jitter_setting(cfg.get("jitter_ctx_use")):
+            if opt is not None and j == 0:
+                opt.zero_grad()
+                out = mll(model(xb), yb, **kw)
+                tot = out if cfg.get("combine", True) else (out[0] - out[1] + out[2])
+                (-tot.sum()).backward()
+            else:
+                with torch.no_grad():
+                    out = mll(model(xb), yb, **kw)
+        replay = {"cfg": cfg, "runner": "variant", "evaluation": j}
+        if replay_only is not None and replay_only.get("evaluation") not in (None, j):
+            return
+        judge_objective(ctx, d14, d15, cfg, cls.__name__, model, lik, dist, xb, yb, out, noise_b, added_vals, mll, replay,
+                        replay_only=None if replay_only is None else replay_only.get("idx"),
+                        extra_desc=f"{env_tag(cfg)} history={hist} evaluation#{j}{'(after ' + '>'.join(done) + ')' if done else ''}",
+                        key_tag=f"/history:{'first' if j == 0 else done[-1]}")
+        ctx.count(f"variant:evaluation#{j}")
+
+    xb, yb = x, y
+    evaluate(0, xb, yb, [])
+    done = []
+    for j, op in enumerate(steps, start=1):
+        if op.startswith("assign"):
+            change_hypers(model, lik, rng)
+            if "minibatch" in op and lk == "gaussian":
+                nb = n + 1
+                xb = V.spread_points([nb, d], rng, lo=-2.5, hi=2.5, min_dist=0.25)
+                yb = torch.tensor([rng.uniform(-1.5, 1.5) for _ in range(nb)], dtype=torch.float64)
+        elif op == "step":
+            opt.step()
+        elif op == "load":
+            other, olik, _, _, _, _ = build(cfg, C.Rng(f"{C.seed()}:{cfg.get('rng_label')}:other"))
+            model.load_state_dict(other.state_dict())
+            if lk == "gaussian":
+                lik.load_state_dict(olik.state_dict())
+        elif op == "q-only":
+            V.randomize_dist(dist, rng)
+            if lk == "gaussian":
+                with torch.no_grad():
+                    lik.noise = torch.empty_like(lik.noise).uniform_(0.05, 0.6)
+        done.append(op)
+        evaluate(j, xb, yb, done)
+    ctx.count(f"variant:history:{hist}")
+    ctx.count(f"variant:learn_z:{cfg['learn_z']}")
+    ctx.count("variant:env:" + (",".join(k_ for k_ in ("jitter_mode", "build_dtype", "jitter_ctx_build", "jitter_ctx_use")
+                                        if cfg.get(k_) is not None) or "default"))
 
 
 # ------------------------------------------------------------------ part B: bound chain, q*, NGD
@@ -334,6 +571,11 @@ def bound_configs(ctx):
                     "n": rng.randint(2, 6 if ctx.quick else 8), "d": rng.choice([1, 2]),
                     "kernel": rng.choice(["rbf", "matern"]), "z_subset_of_x": k % 3 == 2,
                     "ngd_history": NGD_HISTORIES[k % 4]})
+        # non-default constructor flags / construction environment (part D's classes) in the bound chain and NGD step
+        out[-1]["learn_z"] = LEARN_Z[(k + 2) % 3]
+        env = JITTER_MODES[(k + 3) % 7]
+        if not (out[-1]["z_subset_of_x"] and env.get("build_dtype")):    # (float32 Z cannot hold float64 inputs)
+            out[-1].update(env)
     return out
 
 
@@ -344,11 +586,11 @@ def set_q(dist, strategy, m, S_chol):
         dist.chol_variational_covar.copy_(S_chol)
 
 
-def n_elbo(model, lik, x, y, N):
+def n_elbo(model, lik, x, y, N, cfg=None):
     import torch
     import gpytorch
     mll = gpytorch.mlls.VariationalELBO(lik, model, num_data=N)
-    with torch.no_grad():
+    with torch.no_grad(), jitter_setting((cfg or {}).get("jitter_ctx_use")):
         return float(mll(model(x), y)) * N
 
 
@@ -370,8 +612,8 @@ def run_bound(ctx, d14, d15, cfg, rng, replay_only=None):
     N = n
     s = V.F(float(lik.noise.reshape(-1)[0]))
     mp = V._mp()
-    desc0 = f"bound {cfg['strategy']} M={M} n={n} d={cfg['d']} kernel={cfg['kernel']} z_subset_of_x={cfg.get('z_subset_of_x')}"
-    ex = exact_qf(ctx, d14, model, dist, x, (), desc0)
+    desc0 = f"bound {cfg['strategy']} M={M} n={n} d={cfg['d']} kernel={cfg['kernel']} z_subset_of_x={cfg.get('z_subset_of_x')}{env_tag(cfg)}"
+    ex = exact_qf(ctx, d14, model, dist, x, (), desc0, eps=prescribed_jitter(cfg))
     kzz, kzx, kxx, mx, mz = ex["blocks"]
     kxx = V.sym_lower(kxx)       # float kernel matrices are symmetric only up to one ulp
     eps, epsx = ex["eps"], ex["epsx"]
@@ -412,7 +654,7 @@ def run_bound(ctx, d14, d15, cfg, rng, replay_only=None):
     # (1) random q(u)
     for j in range(3 if ctx.quick else 8):
         V.randomize_dist(dist, rng)
-        check_le(f"random-q#{j}", n_elbo(model, lik, x, y, N))
+        check_le(f"random-q#{j}", n_elbo(model, lik, x, y, N, cfg))
     # (2) q* from the model (exact, then rounded to float for the real code)
     L = V.hp_chol(V.add_jit(kzz, eps))
     e1, e2, mw, Sw, dstar, Sstar = d15.ask(f"OPT {M} {n} {V.toks(L)} {V.toks(kzx)} {V.toks(r)} {C.rat_str(s)}")
@@ -425,7 +667,7 @@ def run_bound(ctx, d14, d15, cfg, rng, replay_only=None):
     S_opt = (S_opt + S_opt.T) / 2
     Lc = torch.linalg.cholesky(S_opt)
     set_q(dist, cfg["strategy"], m_opt, Lc)
-    at_opt = n_elbo(model, lik, x, y, N)
+    at_opt = n_elbo(model, lik, x, y, N, cfg)
     ctx.case(f"{desc0} q* seed={C.seed()}")
     ctx.count("opt_checks")
     tole = 1e-8 * scale * max(1.0, ex["kappa"] * 1e-3)
@@ -439,7 +681,7 @@ def run_bound(ctx, d14, d15, cfg, rng, replay_only=None):
         dm = torch.tensor([rng.gauss(0, 1) for _ in range(M)], dtype=torch.float64) * delta
         dL = torch.tensor([[rng.gauss(0, 1) for _ in range(M)] for _ in range(M)], dtype=torch.float64).tril() * delta
         set_q(dist, cfg["strategy"], m_opt + dm, Lc + dL)
-        check_le(f"near-q*(delta={delta})", n_elbo(model, lik, x, y, N))
+        check_le(f"near-q*(delta={delta})", n_elbo(model, lik, x, y, N, cfg))
     # (4) one NGD step of size one from random natural parameters
     run_ngd(ctx, d14, d15, cfg, rng, model, lik, x, y, (kzz, kzx, kxx, mx, mz, eps, r, s, L), float(collapsed), scale,
             ex["kappa"], desc0)
@@ -458,7 +700,7 @@ def run_ngd(ctx, d14, d15, cfg, rng, model0, lik, x, y, exact, collapsed, scale,
 
     class GP(gpytorch.models.ApproximateGP):
         def __init__(self):
-            vs = type(vs0)(self, vs0.inducing_points.detach().clone(), ndist, learn_inducing_locations=True)
+            vs = make_strategy(cfg, type(vs0), self, vs0.inducing_points.detach().clone(), ndist)
             super().__init__(vs)
             self.mean_module = model0.mean_module
             self.covar_module = model0.covar_module
@@ -466,7 +708,7 @@ def run_ngd(ctx, d14, d15, cfg, rng, model0, lik, x, y, exact, collapsed, scale,
         def forward(self, x):
             return gpytorch.distributions.MultivariateNormal(self.mean_module(x), self.covar_module(x))
 
-    model = GP().double()
+    model = finish_model(cfg, GP)
     model.variational_strategy.variational_params_initialized.fill_(1)
     V.randomize_dist(ndist, rng)
     model.train()
@@ -477,8 +719,9 @@ def run_ngd(ctx, d14, d15, cfg, rng, model0, lik, x, y, exact, collapsed, scale,
     e1_0 = V.fcol(ndist.natural_vec.detach())
     e2_0 = V.fmat(ndist.natural_mat.detach())
     opt.zero_grad()
-    loss = -mll(model(x), y)
-    loss.backward()
+    with jitter_setting(cfg.get("jitter_ctx_use")):
+        loss = -mll(model(x), y)
+        loss.backward()
     g1 = ndist.natural_vec.grad.detach().clone()
     g2 = ndist.natural_mat.grad.detach().clone()
     key = f"ngd:{cfg['strategy']}"
@@ -502,7 +745,7 @@ def run_ngd(ctx, d14, d15, cfg, rng, model0, lik, x, y, exact, collapsed, scale,
     if uerr > 1e-12 * us:
         ctx.fail(f"{key}/step-update", f"{desc0}: NGD.step result differs from p + (-lr*num_data)*grad by {uerr}",
                  dict(replay, observable="step"))
-    with torch.no_grad():
+    with torch.no_grad(), jitter_setting(cfg.get("jitter_ctx_use")):
         try:
             after = float(mll(model(x), y)) * N
         except Exception as e:  # non-PD natural matrix after the step would be a failure of the property
@@ -579,6 +822,8 @@ def batched_configs(ctx):
                     "pb": [[2], [3]][(k // 2) % 2], "z_batched": k % 3 == 0, "M": rng.randint(2, 4 if ctx.quick else 6),
                     "n": rng.randint(2, 5 if ctx.quick else 8), "d": rng.choice([1, 2]), "kernel": rng.choice(["rbf", "matern"]),
                     "ngd_history": NGD_HISTORIES[(k + 1) % 4]})
+        out[-1]["learn_z"] = LEARN_Z[(k + 1) % 3]
+        out[-1].update(JITTER_MODES[(k + 5) % 7])
     return out
 
 
@@ -600,7 +845,7 @@ def run_bound_batched(ctx, d14, d15, cfg, rng, replay_only=None):
 
     class GP(gpytorch.models.ApproximateGP):
         def __init__(self):
-            super().__init__(getattr(Vv, cfg["strategy"])(self, Z, dist, learn_inducing_locations=True))
+            super().__init__(make_strategy(cfg, getattr(Vv, cfg["strategy"]), self, Z, dist))
             self.mean_module = gpytorch.means.ConstantMean()
             self.covar_module = gpytorch.kernels.ScaleKernel(gpytorch.kernels.RBFKernel() if cfg["kernel"] == "rbf"
                                                               else gpytorch.kernels.MaternKernel(nu=2.5))
@@ -608,7 +853,7 @@ def run_bound_batched(ctx, d14, d15, cfg, rng, replay_only=None):
         def forward(self, x):
             return gpytorch.distributions.MultivariateNormal(self.mean_module(x), self.covar_module(x))
 
-    model = GP().double()
+    model = finish_model(cfg, GP)
     lik = gpytorch.likelihoods.GaussianLikelihood().double()
     V.randomize_hypers(model, rng)
     with torch.no_grad():
@@ -624,14 +869,15 @@ def run_bound_batched(ctx, d14, d15, cfg, rng, replay_only=None):
     mat_param = dist.natural_mat if natural else dist.natural_tril_mat
     e1_all, e2_all = dist.natural_vec.detach().clone(), mat_param.detach().clone()
     opt.zero_grad()
-    val = mll(model(x), y)
-    (-val.sum()).backward()
+    with jitter_setting(cfg.get("jitter_ctx_use")):
+        val = mll(model(x), y)
+        (-val.sum()).backward()
     val0 = val.detach().clone() * N
     g1_all, g2_all = dist.natural_vec.grad.detach().clone(), mat_param.grad.detach().clone()
     after = None
     if natural:
         opt.step()
-        with torch.no_grad():
+        with torch.no_grad(), jitter_setting(cfg.get("jitter_ctx_use")):
             try:
                 after = mll(model(x), y).detach().clone() * N
             except Exception as e:
@@ -640,14 +886,14 @@ def run_bound_batched(ctx, d14, d15, cfg, rng, replay_only=None):
     mp = V._mp()
     xx, Zx = V.expand_inputs(x, vs.inducing_points.detach())
     Kzz, Kzx, Kxx, mX, mZ = V.joint_blocks(model, Zx, xx, M)
-    eps = V.F(vs.jitter_val)
+    eps = prescribed_jitter(cfg)
     epsx = eps if whitened else Fraction(0)
     for b in range(pb[0]):
         if replay_only is not None and list(replay_only) != [b]:
             continue
         idx = (b,)
         desc = f"batched {cfg['strategy']}/{cfg['dist']} pb={pb} z_batched={bool(cfg.get('z_batched'))} M={M} n={n} d={d} " \
-               f"kernel={cfg['kernel']} ngd_history={cfg.get('ngd_history')} element={b}"
+               f"kernel={cfg['kernel']} ngd_history={cfg.get('ngd_history')}{env_tag(cfg)} element={b}"
         replay = {"cfg": cfg, "runner": "bound_batched", "idx": [b]}
         kzz, kzx, kxx = (V.fmat(V.bget(t, idx, 2)) for t in (Kzz, Kzx, Kxx))
         kzz, kxx = V.sym_lower(kzz), V.sym_lower(kxx)
@@ -745,8 +991,8 @@ def run_bound_py(ctx, d14, cfg, rng):
     lik.train()
     M, n = cfg["M"], cfg["n"]
     s = V.F(float(lik.noise.reshape(-1)[0]))
-    desc0 = f"bound[py-oracle] {cfg['strategy']} M={M} n={n} d={cfg['d']} kernel={cfg['kernel']} ngd_history={cfg.get('ngd_history')}"
-    ex = exact_qf(ctx, d14, model, dist, x, (), desc0)
+    desc0 = f"bound[py-oracle] {cfg['strategy']} M={M} n={n} d={cfg['d']} kernel={cfg['kernel']} ngd_history={cfg.get('ngd_history')}{env_tag(cfg)}"
+    ex = exact_qf(ctx, d14, model, dist, x, (), desc0, eps=prescribed_jitter(cfg))
     kzz, kzx, kxx, mx, mz = ex["blocks"]
     if ex["kappa"] > 1e6:
         return
@@ -757,7 +1003,7 @@ def run_bound_py(ctx, d14, cfg, rng):
     replay = {"cfg": cfg, "runner": "bound_py"}
     for j in range(3):
         V.randomize_dist(dist, rng)
-        v = n_elbo(model, lik, x, y, n)
+        v = n_elbo(model, lik, x, y, n, cfg)
         ctx.case(f"{desc0} random-q#{j} seed={C.seed()}")
         if v > collapsed + 1e-9 * scale * max(1.0, ex["kappa"] * 1e-4):
             ctx.fail(f"{key}/elbo-exceeds-collapsed-bound", f"{desc0}: N*ELBO = {v!r} > collapsed bound {collapsed!r}", replay)
@@ -767,23 +1013,24 @@ def run_bound_py(ctx, d14, cfg, rng):
 
     class GP(gpytorch.models.ApproximateGP):
         def __init__(self):
-            super().__init__(type(vs0)(self, vs0.inducing_points.detach().clone(), ndist, learn_inducing_locations=True))
+            super().__init__(make_strategy(cfg, type(vs0), self, vs0.inducing_points.detach().clone(), ndist))
             self.mean_module = model.mean_module
             self.covar_module = model.covar_module
 
         def forward(self, x):
             return gpytorch.distributions.MultivariateNormal(self.mean_module(x), self.covar_module(x))
 
-    m2 = GP().double()
+    m2 = finish_model(cfg, GP)
     m2.variational_strategy.variational_params_initialized.fill_(1)
     V.randomize_dist(ndist, rng)
     m2.train()
     mll = gpytorch.mlls.VariationalELBO(lik, m2, num_data=n)
     opt = make_ngd(m2.variational_parameters(), n, cfg.get("ngd_history"))
     opt.zero_grad()
-    (-mll(m2(x), y)).backward()
+    with jitter_setting(cfg.get("jitter_ctx_use")):
+        (-mll(m2(x), y)).backward()
     opt.step()
-    with torch.no_grad():
+    with torch.no_grad(), jitter_setting(cfg.get("jitter_ctx_use")):
         after = float(mll(m2(x), y)) * n
     ctx.case(f"{desc0} ngd seed={C.seed()}")
     if abs(after - collapsed) > 1e-7 * scale * max(1.0, ex["kappa"] * 1e-3):
@@ -844,6 +1091,9 @@ def run_all(ctx, d14, d15):
     for i, cfg in enumerate(objective_configs(ctx)):
         cfg["rng_label"] = f"objective:{i}"
         go("objective", cfg, lambda d, c=cfg: run_objective(ctx, d14, d, c, ctx.rng(c["rng_label"])))
+    for i, cfg in enumerate(variant_configs(ctx)):
+        cfg["rng_label"] = f"variant:{i}"
+        go("variant", cfg, lambda d, c=cfg: run_variant(ctx, d14, d, c, ctx.rng(c["rng_label"])))
     for i, cfg in enumerate(bound_configs(ctx)):
         cfg["rng_label"] = f"bound:{i}"
         go("bound", cfg, lambda d, c=cfg: (run_bound(ctx, d14, d, c, ctx.rng(c["rng_label"])) if d is not None
@@ -904,6 +1154,8 @@ def replay(ctx, payload):
         rng = ctx.rng(cfg.get("rng_label", ""))
         if case.get("runner") == "objective":
             run_objective(ctx, d14, d15, cfg, rng, replay_only=case.get("idx"))
+        elif case.get("runner") == "variant":
+            run_variant(ctx, d14, d15, cfg, rng, replay_only={"evaluation": case.get("evaluation"), "idx": case.get("idx")})
         elif case.get("runner") == "bound_py" or (d15 is None and case.get("runner") == "bound"):
             run_bound_py(ctx, d14, cfg, rng)
         elif case.get("runner") == "bound_batched":
